@@ -260,7 +260,7 @@ def check_property(pid, tier, seed):
                 continue
             if pid not in PROPS.owners(row.get("props") or ""):
                 continue
-            if row.get("n_ensures", 0) == 0 and not row.get("trait_contract", True):
+            if row.get("notwin"):
                 continue
             twins_generated += 1
             if row["item"] in rejected:
